@@ -72,6 +72,12 @@ CLAIMED = {
   text="Decides one clause of the property, the one whose truth is in the shape of the code: 'marshalling the returned packets never panics'. Every packet type's Marshal, rtcp.Marshal and CompoundPacket.Marshal are analysed for EVERY receiver value with non-nil list elements and a re-encoded size of at most 65532 octets - a superset of what the decoders can return; all ~660 index, slice-bound (against the length), binary access, nil, division, type-assertion, make and loop obligations of the reachable universe must be entailed at the instruction; six obligation groups that need prefix-sum, disjunctive or floating-point reasoning are discharged by a frozen table of reasons confirmed by reading. NOT decided: that the new bytes are accepted again and decode to an equal packet list, and the TransportLayerCC consistency condition - these relate run-time values of two executions; a reader must not take this check as evidence of idempotence.",
   note="Trusted: go/ssa, checker/num, checker/effects, c09Triaged (6 entries keyed by function and rule, each with its reason and required to match an undecided obligation). Above 65535 octets CCFeedbackReport.Marshal panics (uint16 buffer length) - outside the stated size domain.",
   design="DESIGN.md §8 (C09 as built)"),
+ "C14": dict(
+  level="other",
+  technique="static analysis: SSA dominator conditions, numeric abstract interpretation and bit provenance for the integer clauses of the REMB codec",
+  text="The numeric core of this property - decode = mantissa x 2^exponent for all 2^24 pairs, encode = largest representable value not above x, monotone, saturating - is IEEE-754 float32 arithmetic and is NOT decided by this check (no engine here models floating point). Decided are only its integer/structural clauses, each a necessary condition: NEG - every nil-error return of MarshalTo is dominated by `bitrate < 0` being false for the receiver's (clamped) bitrate, so a negative bitrate is rejected; EXP - the exponent shifted into octet 17 is entailed within 0..63 at every nil-error return; CNT-ENC - octet 16 is the low 8 bits of len(SSRCs) and len(SSRCs) <= 255 at every nil-error return; CNT-DEC - Unmarshal returns nil only with len(p.SSRCs) = buf[16]. A reader must not take a pass here as evidence about bitrate values.",
+  note="Trusted: go/ssa, checker/num, checker/bits. Four obligations.",
+  design="DESIGN.md §8 (C14 as built)"),
  "C08": dict(
   level="other",
   technique="static analysis: abstract interpretation of go/ssa (linear constraints, exact fixed-width wrap-around) of every encoder with per-call-string narrowing obligations and an error-discipline rule",
